@@ -413,6 +413,17 @@ def tdb_rules(ctx, A):
 
     # A itself: explicit align, else sole field's alignment, else pointer size
     a_ok = is_call(Astr, 'Option::<T>::unwrap_or') and is_call(Astr[2][1], 'pointer_size') and is_call(Astr[2][0], 'Option::<T>::or')
+    if a_ok:
+        first, second = strip(Astr[2][0][2][0]), strip(Astr[2][0][2][1])
+        # precedence: the explicit #[align(N)] first, the sole field's alignment only as a fallback
+        explicit_first = first[0] == 'var' and tdb.local_ty(first[1]) == 'std::option::Option<usize>' and not find_calls(first, 'then') and \
+            any(any(isinstance(x, tuple) and x[0] == 'payload' and x[2] == 'IntLiteral' for x in walk(d)) for d in tdb.init_of(first[1]))
+        th = [x for x in walk(second) if is_call(x, 'bool>::then') or (isinstance(x, tuple) and x[0] == 'call' and re.search(r'bool>?::then$', x[1]))]
+        sole = bool(th) and th[0][2][0][0] == 'bin' and th[0][2][0][1] == 'Eq' and is_int(th[0][2][0][3], 1) and is_call(th[0][2][0][2], '::len')
+        if sole:
+            cl = th[0][2][1]
+            sole = cl[0] == 'closure' and cl[1] in P.fns and any(c_['path'] and c_['path'].endswith('Type::alignment') for c_ in P.fns[cl[1]].calls())
+        a_ok = explicit_first and sole
     ctx.ob(['C02'], 'R-EXPR', 'TDB|alignment-selection', a_ok, 'effective alignment = explicit align, else the sole field\'s alignment, else the pointer size: %s' % show(Astr)[:200], where)
     # G3
     g3 = []
@@ -590,6 +601,14 @@ SEQ_ALLOW = [
 ]
 
 
+SEQ_PROPS = {
+    REGION: ['C01', 'C14', 'C17'], 'grammar::TypeStatement': ['C01', 'C14'], 'semantic::function::Function': ['C04', 'C06', 'C14'], 'grammar::Function': ['C04', 'C05', 'C14'],
+    '(std::string::String, isize)': ['C08'], 'grammar::EnumStatement': ['C08'], 'semantic::function::Argument': ['C04', 'C05'], 'grammar::Argument': ['C04', 'C05', 'C18'],
+    'grammar::Attribute': ['C17', 'C18'], 'semantic::types::Backend': ['C14'], 'grammar::Backend': ['C14', 'C18'], 'grammar::ItemPath': ['C11', 'C09'],
+    'semantic::types::ExternValue': ['C09', 'C14'], 'grammar::ItemDefinition': ['C14', 'C09'], 'grammar::ExternValue': ['C14', 'C15'],
+}
+
+
 def seq_rules(ctx):
     P = ctx.prog
     n = 0
@@ -610,7 +629,12 @@ def seq_rules(ctx):
             n += 1
             base = re.sub(r'::\{closure#\d+\}', '', f.id)
             allow = [a for a in SEQ_ALLOW if a[0] == base and a[1] in p and a[2] in args]
-            ctx.ob(['C01', 'C04', 'C14', 'C08', 'C09'], 'R-SEQ', '%s|%s|%s' % (base, short(p), hit[0].split('::')[-1]), bool(allow),
+            if not allow and re.search(r'::sort\w*$', p):
+                # sorting a sequence that was collected from a hash container imposes an order, it does not change one
+                recv = expand(f, f.expr_of_operand(c['term']['args'][0]))
+                if any(isinstance(x, tuple) and x[0] == 'call' and re.search(r'collections::(HashMap|HashSet|hash_map|hash_set)', x[4] if len(x) > 4 else '') for x in walk(recv)):
+                    allow = [(base, p, '', 'sorts a collection that was gathered from a hash container (imposes an order on an unordered set)')]
+            ctx.ob(SEQ_PROPS.get(hit[0], ['C09']), 'R-SEQ', '%s|%s|%s' % (base, short(p), hit[0].split('::')[-1]), bool(allow),
                    ('reviewed: ' + allow[0][3]) if allow else 'order-changing operation %s on a sequence of %s between parse and emit' % (short(p), hit[0]), loc(c['span']))
     ctx.ob(['C01'], 'R-SEQ', 'census', True, '%d order-changing calls on order-bearing sequences examined' % n, nontrivial=False)
 
